@@ -289,3 +289,9 @@ package ice
 //@   site call Close#3 assert the-shared-socket-is-closed-last: markedClosed && recv == m.params.UDPConn
 //@   ensures no-connection-stays-registered: len(m.connsIPv4) == 0 && len(m.connsIPv6) == 0
 //@   ensures the-mux-is-closed: closed(m.closedChan)
+
+// One transport address has one key: the canonical form is never the IPv4-mapped spelling, whatever
+// the address's scope (an IPv4 link-local address written ::ffff:169.254.x.y is still an IPv4 address).
+//@ func canonicalAddr
+//@   props C12 C06
+//@   ensures an-ipv4-address-has-one-key-whichever-form-it-arrived-in: !addrIs4In6(result)
